@@ -108,6 +108,41 @@ impl EventSender {
     }
 }
 
+#[cfg(assets_manager_verif)]
+#[allow(missing_docs, missing_debug_implementations)]
+pub use watcher::verif_hooks as verif_watcher;
+
+/// Verification hook: the receiving end of an event channel.
+#[cfg(assets_manager_verif)]
+#[allow(missing_docs, missing_debug_implementations)]
+pub struct VerifEvents(Receiver<Events>);
+
+#[cfg(assets_manager_verif)]
+#[allow(missing_docs)]
+impl VerifEvents {
+    /// Next batch of events, if any was sent.
+    pub fn try_next(&self) -> Option<Vec<OwnedDirEntry>> {
+        let mut batch = Vec::new();
+        self.0.try_recv().ok()?.for_each(|e| batch.push(e));
+        Some(batch)
+    }
+}
+
+#[cfg(assets_manager_verif)]
+#[allow(missing_docs)]
+impl EventSender {
+    /// A sender together with the receiving end of its channel.
+    pub fn verif_channel() -> (EventSender, VerifEvents) {
+        let (tx, rx) = channel::unbounded();
+        (EventSender(tx), VerifEvents(rx))
+    }
+
+    /// Number of messages sent and not yet taken by the receiver.
+    pub fn verif_pending(&self) -> usize {
+        self.0.len()
+    }
+}
+
 /// Used to make sure any thread calling `AssetCache::hot_reload` continues when
 /// it is answered and not when another thread is. Using a channel would be
 /// vulnerable to race condition, which is fine in that case but not really
